@@ -53,9 +53,9 @@ def r1_errors_carry_location(ctx: Ctx) -> None:
                         defs = [n for n in walk_no_nested(fn.node) if isinstance(n, ast.Assign) and unparse(n.targets[0]) == ps.id]
                         ok = len(defs) == 1 and call_name(defs[0].value) in ("s.get_position", "self.get_position")
                 ctx.check(ok, f"{fn.where}:ScannerException", "carries a scanner position")
-    ctx.floor("NodeError_sites", 8)
-    ctx.floor("ParserSyntaxError_sites", 6)
-    ctx.floor("ScannerException_sites", 6)
+    ctx.floor("NodeError_sites", 5)
+    ctx.floor("ParserSyntaxError_sites", 4)
+    ctx.floor("ScannerException_sites", 4)
     # generators receive their node's own token
     cg = repo.func("a816.parse.codegen", "_code_gen")
     fi = [n for n in walk_no_nested(cg.node) if isinstance(n, ast.Assign) and unparse(n.targets[0]) == "file_info"]
@@ -86,7 +86,7 @@ def r1_errors_carry_location(ctx: Ctx) -> None:
                     elif tok.id in fn.params():
                         ok = True
                 ctx.check(ok, f"{fn.where}:{cn}", f"the node's token {why} is the statement's first token, read before its operands")
-    ctx.floor("statement_ast_sites", 8)
+    ctx.floor("statement_ast_sites", 5)
     # message construction
     ne = repo.func("a816.parse.nodes", "NodeError.__str__")
     txt = unparse(ne.node)
@@ -207,7 +207,7 @@ def r2_position_before_newline(ctx: Ctx) -> None:
                       "position is read before the token can have consumed a newline" if not late else
                       "a character that may be the end of the line is consumed before the position is read: next() on '\\n' advances current_line and line_offset, "
                       "so the error is reported one line late with a negative column")
-    ctx.floor("position_reads", 5)
+    ctx.floor("position_reads", 3)
 
 
 def r3_single_writer(ctx: Ctx) -> None:
@@ -226,7 +226,7 @@ def r3_single_writer(ctx: Ctx) -> None:
                     if isinstance(t, ast.Attribute) and t.attr in ("current_line", "line_offset"):
                         ctx.count("line_counter_writes")
                         ctx.check(fn.fq in ("a816.parse.scanner:Scanner.__init__", "a816.parse.scanner:Scanner._handle_line"), f"{fn.where}:{unparse(n)[:40]}", "line counters have one writer")
-    ctx.floor("handle_line_calls", 3)
+    ctx.floor("handle_line_calls", 2)
     # the cursor moves only through primitives that account for lines: next() (calls _handle_line on a newline), backup(),
     # accept_prefix(<literal without newline>), the 3-letter mnemonic skip and the look-ahead restore in lex_opcode
     allowed_pos = {"a816.parse.scanner:Scanner.next", "a816.parse.scanner:Scanner.backup", "a816.parse.scanner:Scanner.accept_prefix",
@@ -246,7 +246,7 @@ def r3_single_writer(ctx: Ctx) -> None:
             if (call_name(c) or "").endswith(".accept_prefix") and c.args:
                 lit = const_str(c.args[0])
                 ctx.check(lit is not None and "\n" not in lit, f"{fn.where}:{unparse(c)[:40]}", "accept_prefix skips its literal without line accounting: the literal must not contain a newline")
-    ctx.floor("cursor_writes", 5)
+    ctx.floor("cursor_writes", 3)
     lo = ctx.repo.func(SST, "lex_opcode")
     restores = [n for n in walk_no_nested(lo.node) if isinstance(n, ast.Assign) and unparse(n.targets[0]) == "s.pos"]
     snaps = [n for n in walk_no_nested(lo.node) if isinstance(n, ast.Assign) and unparse(n.value) == "s.pos"]
